@@ -1,10 +1,20 @@
 package worlds
 
 import (
+	"fmt"
+	"sort"
+	"sync"
 	"testing"
+	"testing/synctest"
+	"time"
+
+	"github.com/Comcast/rulio/core"
 
 	"verif/sim/h"
 )
+
+// synctestSettle waits until every other goroutine of the bubble is blocked.
+func synctestSettle() { synctest.Wait() }
 
 // C20 (a) — capacity: a location never holds more facts plus rules than its
 // configured maximum through the public add operations, and an add refused
@@ -48,4 +58,283 @@ func genC20Cap(r *h.Rng, tier string, idx int) *h.Plan {
 		}
 	}
 	return p
+}
+
+// ---- (b) OutboundBreaker, (c) Throttle: fake-clock arrival patterns ---------
+
+func init() {
+	h.Register(&h.World{Prop: "C20", Name: "breaker", Share: 2, Gen: genC20Breaker, Exec: execC20Breaker})
+	h.Register(&h.World{Prop: "C20", Name: "throttle", Share: 1, Gen: genC20Throttle, Exec: execC20Throttle})
+}
+
+func genC20Breaker(r *h.Rng, tier string, idx int) *h.Plan {
+	p := &h.Plan{Cfg: map[string]interface{}{}}
+	limit := r.Range(1, 6)
+	interval := []time.Duration{time.Second, 2 * time.Second, 10 * time.Second, 500 * time.Millisecond}[r.Intn(4)]
+	p.Cfg["limit"] = limit
+	p.Cfg["interval_ns"] = int64(interval)
+	tick := interval / 20
+	segs := r.Range(1, 4)
+	for s := 0; s < segs; s++ {
+		switch r.Intn(4) {
+		case 0: // burst at one instant (k callers at the same instant)
+			p.Ops = append(p.Ops, h.Op{K: "burst", N: int64(r.Range(1, 3*limit)), B: r.Bool()})
+		case 1: // steady polling faster than a tick, for longer than the interval
+			period := tick / time.Duration(r.Range(2, 10))
+			if period <= 0 {
+				period = time.Microsecond
+			}
+			n := int((interval*time.Duration(r.Range(2, 4)) + interval/2) / period)
+			if n > 4000 {
+				n = 4000
+				period = (interval*3 + interval/2) / 4000
+			}
+			p.Ops = append(p.Ops, h.Op{K: "poll", N: int64(period), C: n})
+		case 2: // steady polling slower than a tick
+			period := tick*time.Duration(r.Range(1, 5)) + time.Duration(r.Range(0, int(tick/time.Microsecond)))*time.Microsecond
+			n := int(interval * time.Duration(r.Range(2, 3)) / period)
+			p.Ops = append(p.Ops, h.Op{K: "poll", N: int64(period), C: n + 1})
+		case 3:
+			p.Ops = append(p.Ops, h.Op{K: "sleep", N: int64(time.Duration(r.Range(1, 30)) * tick / 2)})
+		}
+	}
+	return p
+}
+
+func execC20Breaker(t *testing.T, plan *h.Plan, trace bool) *h.Result {
+	res := &h.Result{}
+	var tr []string
+	h.Arm(60*time.Second, "C20 breaker")
+	defer h.Disarm()
+	opIdx := 0
+	fail := func(class, sig, f string, a ...interface{}) {
+		if res.Viol == nil {
+			res.Viol = &h.Violation{Property: "C20", Class: class, Sig: "breaker:" + sig, Detail: fmt.Sprintf(f, a...), OpIdx: opIdx}
+		}
+	}
+	out := h.Bubble(t, func() {
+		h.SeedProcess(plan.RunSeed)
+		limit := plan.CfgI("limit", 1)
+		interval := time.Duration(plan.CfgI("interval_ns", int64(time.Second)))
+		tick := interval / 20
+		b, err := core.NewOutboundBreaker(limit, interval)
+		if err != nil {
+			panic(err)
+		}
+		start := time.Now()
+		var mu sync.Mutex
+		var admits []time.Duration // admission instants
+		var polls []time.Duration  // every call
+		call := func() {
+			ok := b.Zap()
+			at := time.Since(start)
+			mu.Lock()
+			polls = append(polls, at)
+			if ok {
+				admits = append(admits, at)
+			}
+			mu.Unlock()
+		}
+		for i, op := range plan.Ops {
+			opIdx = i
+			switch op.K {
+			case "sleep":
+				time.Sleep(time.Duration(op.N))
+			case "burst":
+				if op.B {
+					var wg sync.WaitGroup
+					for k := int64(0); k < op.N; k++ {
+						wg.Add(1)
+						go func() { defer wg.Done(); call() }()
+					}
+					wg.Wait()
+				} else {
+					for k := int64(0); k < op.N; k++ {
+						call()
+					}
+				}
+			case "poll":
+				for k := 0; k < op.C; k++ {
+					call()
+					time.Sleep(time.Duration(op.N))
+				}
+			}
+		}
+		sort.Slice(admits, func(i, j int) bool { return admits[i] < admits[j] })
+		sort.Slice(polls, func(i, j int) bool { return polls[i] < polls[j] })
+		if trace {
+			tr = append(tr, fmt.Sprintf("limit=%d interval=%v admits=%v npolls=%d", limit, interval, admits, len(polls)))
+		}
+		// (1) every window of length `interval` holds at most `limit` admissions
+		for i := range admits {
+			j := i + int(limit)
+			if j < len(admits) && admits[j]-admits[i] < interval {
+				fail("window-exceeded", "window", "limit %d per %v: admissions at %v .. %v are %d calls within %v", limit, interval, admits[i], admits[j], limit+1, admits[j]-admits[i])
+				break
+			}
+		}
+		// (2) recovery while polled: after a window has filled up, a call made at
+		// or after (the oldest admission of that window + interval + one tick) is admitted
+		for i := 0; i+int(limit) <= len(admits); i++ {
+			oldest := admits[i]
+			reopen := oldest + interval + tick + time.Millisecond
+			// the first poll at/after reopen (if any) must be admitted, provided the
+			// window is otherwise open: count admissions in (pollTime-interval, pollTime)
+			for _, pt := range polls {
+				if pt < reopen {
+					continue
+				}
+				inWindow := 0
+				for _, a := range admits {
+					if a > pt-interval-tick-time.Millisecond && a < pt {
+						inWindow++
+					}
+				}
+				admitted := false
+				for _, a := range admits {
+					if a == pt {
+						admitted = true
+					}
+				}
+				if inWindow < int(limit) && !admitted {
+					fail("no-recovery-while-polled", "recovery", "limit %d per %v: the call at %v was refused although only %d admissions lie within the preceding %v (admissions %v)", limit, interval, pt, inWindow, interval+tick, tailDur(admits, 8))
+				}
+				break
+			}
+			if res.Viol != nil {
+				break
+			}
+		}
+		res.SimNanos = int64(time.Since(start))
+		res.Count("breaker_calls", int64(len(polls)))
+		res.Count("breaker_admissions", int64(len(admits)))
+		if len(admits) < len(polls) {
+			res.Nontrivial = append(res.Nontrivial, fmt.Sprintf("%d|%v|%s", limit, interval, h.Sha(h.Canon(plan.Ops))))
+		}
+	})
+	if res.Viol == nil && out.Panic != nil {
+		res.Viol = &h.Violation{Property: "C20", Class: "panic", Sig: "breaker", OpIdx: opIdx, Detail: fmt.Sprintf("%v\n%s", out.Panic, h.Trunc(out.Stack, 1200))}
+	}
+	res.Trace = tr
+	return res
+}
+
+func tailDur(xs []time.Duration, n int) []time.Duration {
+	if len(xs) > n {
+		return xs[len(xs)-n:]
+	}
+	return xs
+}
+
+func genC20Throttle(r *h.Rng, tier string, idx int) *h.Plan {
+	p := &h.Plan{Cfg: map[string]interface{}{}}
+	p.Cfg["limit"] = r.Range(1, 3)
+	p.Cfg["interval_ns"] = int64(time.Duration(r.Range(1, 4)) * time.Second)
+	p.Cfg["attempts"] = r.Range(1, 5)
+	p.Cfg["pending_limit"] = r.Range(0, 4)
+	p.Cfg["pause_ns"] = int64(time.Duration(r.Range(50, 900)) * time.Millisecond)
+	n := r.Range(2, 14)
+	for i := 0; i < n; i++ {
+		// submissions at distinct instants (odd microsecond residues), some close together
+		gap := time.Duration(r.Range(0, 700))*time.Millisecond + time.Duration(2*i+1)*time.Microsecond
+		p.Ops = append(p.Ops, h.Op{K: "submit", N: int64(gap), C: i})
+	}
+	return p
+}
+
+func execC20Throttle(t *testing.T, plan *h.Plan, trace bool) *h.Result {
+	res := &h.Result{}
+	var tr []string
+	h.Arm(60*time.Second, "C20 throttle")
+	defer h.Disarm()
+	fail := func(class, sig, f string, a ...interface{}) {
+		if res.Viol == nil {
+			res.Viol = &h.Violation{Property: "C20", Class: class, Sig: "throttle:" + sig, Detail: fmt.Sprintf(f, a...), OpIdx: 0}
+		}
+	}
+	out := h.Bubble(t, func() {
+		h.SeedProcess(plan.RunSeed)
+		limit := plan.CfgI("limit", 1)
+		interval := time.Duration(plan.CfgI("interval_ns", int64(time.Second)))
+		b, _ := core.NewOutboundBreaker(limit, interval)
+		pendingLimit := int(plan.CfgI("pending_limit", 1))
+		th, _ := core.NewThrottle(int(plan.CfgI("attempts", 1)), pendingLimit, time.Duration(plan.CfgI("pause_ns", int64(time.Second))), b)
+		start := time.Now()
+		var mu sync.Mutex
+		ran := map[int]int{}
+		results := map[int]string{}
+		maxPending := 0
+		var wg sync.WaitGroup
+		for _, op := range plan.Ops {
+			time.Sleep(time.Duration(op.N))
+			k := op.C
+			wg.Add(1)
+			go func() {
+				defer wg.Done()
+				err := th.Submit(func() error {
+					mu.Lock()
+					ran[k]++
+					mu.Unlock()
+					return nil
+				})
+				mu.Lock()
+				if err == nil {
+					results[k] = "ok"
+				} else {
+					results[k] = err.Error()
+				}
+				mu.Unlock()
+			}()
+			synctestSettle()
+			pn, _ := th.Pending()
+			if pn > maxPending {
+				maxPending = pn
+			}
+		}
+		wg.Wait()
+		pn, _ := th.Pending()
+		if pn != 0 {
+			fail("pending-not-zero", "pending", "after every submission returned, Pending() = %d", pn)
+		}
+		if maxPending > pendingLimit+1 {
+			fail("pending-exceeded", "pending", "Pending() reached %d with pending limit %d", maxPending, pendingLimit)
+		}
+		for k, n := range ran {
+			if n > 1 {
+				fail("function-ran-twice", "submit", "submission %d ran its function %d times", k, n)
+			}
+		}
+		for k, r := range results {
+			if r == "ok" && ran[k] != 1 {
+				fail("ok-without-run", "submit", "submission %d returned success but its function ran %d times", k, ran[k])
+			}
+			if r != "ok" && ran[k] != 0 {
+				fail("refused-but-ran", "submit", "submission %d returned %q but its function ran", k, r)
+			}
+		}
+		if trace {
+			tr = append(tr, fmt.Sprintf("results=%v ran=%v maxPending=%d", results, ran, maxPending))
+		}
+		res.SimNanos = int64(time.Since(start))
+		refused := 0
+		for _, r := range results {
+			if r != "ok" {
+				refused++
+			}
+		}
+		if refused > 0 {
+			res.Nontrivial = append(res.Nontrivial, h.Sha(h.Canon(plan.Cfg)+h.Canon(plan.Ops)))
+		}
+		res.Count("throttle_submissions", int64(len(results)))
+		res.Count("throttle_refused", int64(refused))
+	})
+	if res.Viol == nil {
+		if out.Deadlock {
+			res.Viol = &h.Violation{Property: "C20", Class: "deadlock", Sig: "throttle", Detail: out.Msg}
+		} else if out.Panic != nil {
+			res.Viol = &h.Violation{Property: "C20", Class: "panic", Sig: "throttle", Detail: fmt.Sprintf("%v\n%s", out.Panic, h.Trunc(out.Stack, 1200))}
+		}
+	}
+	res.Trace = tr
+	return res
 }
